@@ -603,6 +603,8 @@ func main() {
 		out.Count("route")
 		out.Check(idx, fmt.Sprintf("check_route 0%%Z %s %d %s %s %s %s\n %s %s", vh.Z(int64(tn)), nshards, vh.Z(now0), vh.Z(behind), vh.Z(ahead),
 			vh.List(rowsCoq), vh.List(groups), vh.NatList(evictedIDs)))
+		// as the write handler does: the batch goes back to the pool, the next request reuses its rows
+		batch.Release()
 	}
 	out.Finish()
 }
